@@ -33,7 +33,17 @@ def decoded_dt_sub_minute(e):
     return False
 
 
+def decoded_single_col_empty_row(e):
+    for key in ("from_str", "parser"):
+        b = e.get(key, {}).get("back") if isinstance(e.get(key), dict) else None
+        for g in walk(b):
+            if g.get("k") == "grid" and len(g["cols"]) == 1 and any(len(r) == 0 for r in g["rows"]):
+                return True
+    return False
+
+
 PREDICATES = {
+    "decoded_single_col_grid_with_empty_row": decoded_single_col_empty_row,
     "decoded_dt_with_sub_minute_offset": decoded_dt_sub_minute,
     "single_col_grid_with_empty_row": has_single_col_empty_row,
     "any": lambda e: True,
